@@ -7,6 +7,7 @@ cd $REPO || exit 2
 git diff --quiet || { echo "$REPO not clean"; exit 2; }
 git apply "$patch" 2>/dev/null || git apply -C1 "$patch" || { echo "patch does not apply"; exit 2; }
 cd /verif
+mkdir -p /tmp/seedrun && cp /verif/known_findings.json /tmp/seedrun/
 for p in $props; do
   out=$(bin/jsonsa check -property $p -tier quick -repo $REPO -verif /tmp/seedrun 2>&1); r=$?
   if [ $r -ne 0 ]; then echo "== $p exit=$r"; echo "$out" | grep -E '^  violation|UNDECIDED' | cut -c1-300; fi
